@@ -6,6 +6,7 @@ import (
 	"go/token"
 	"go/types"
 	"sort"
+	"strings"
 )
 
 // loopCtx carries the ghost variables of the loop being cut, for invariants.
@@ -269,7 +270,9 @@ func (x *Exec) cutLoop(node ast.Stmt, st *State, cond ast.Expr, post ast.Stmt, b
 	}
 	head := st.clone()
 	if mods.all {
+		x.inFrameEval = true // (forgetting at a loop head is not a write)
 		x.havocAll(head)
+		x.inFrameEval = false
 	} else {
 		names := make([]string, 0, len(mods.heaps))
 		for n := range mods.heaps {
@@ -277,12 +280,32 @@ func (x *Exec) cutLoop(node ast.Stmt, st *State, cond ast.Expr, post ast.Stmt, b
 		}
 		sort.Strings(names)
 		for _, n := range names {
-			x.havocHeap(head, n, mods.heaps[n])
+			x.forgetHeap(head, n, mods.heaps[n])
 		}
 		if mods.allocs {
 			na := x.ctx.Fresh("alloc", SInt)
 			head.assume(mk(SBool, ">=", na, head.alloc))
 			head.alloc = na
+		}
+	}
+	// ghost call counters and last-error records are unknown at the loop head
+	x.ghostGenN++
+	head.ghostGen = x.ghostGenN
+	if head.ghost != nil {
+		gk := make([]string, 0, len(head.ghost))
+		for k := range head.ghost {
+			gk = append(gk, k)
+		}
+		sort.Strings(gk)
+		for _, k := range gk {
+			switch {
+			case strings.HasPrefix(k, "called:"):
+				f := x.ctx.Fresh("ghostc", SInt)
+				head.assume(mk(SBool, ">=", f, head.ghost[k]))
+				head.ghost[k] = f
+			case strings.HasPrefix(k, "lasterr:"):
+				delete(head.ghost, k)
+			}
 		}
 	}
 	var vs []*types.Var
@@ -316,6 +339,24 @@ func (x *Exec) cutLoop(node ast.Stmt, st *State, cond ast.Expr, post ast.Stmt, b
 			head.assume(and(mk(SBool, "<=", intLit(0), i), mk(SBool, "<=", i, ite(mk(SBool, ">=", rs.val, intLit(0)), rs.val, intLit(0)))))
 		case "map":
 			visVar = x.ctx.Fresh("visited", visVar.Sort)
+		}
+	}
+	// 2b. frame at the loop head: every write is checked against the assigns clause where it happens
+	// (Exec.writeAt), so cells that existed at function entry and that the clause does not mention
+	// still hold their entry value at the head of every iteration. This is assumed, not re-proved.
+	if x.top().top && x.contract != nil && x.contract.HasAssign && x.entrySt != nil {
+		var hn []string
+		for n := range head.heap {
+			hn = append(hn, n)
+		}
+		sort.Strings(hn)
+		for _, n := range hn {
+			if n == "G_bufContent" {
+				continue
+			}
+			if f, ok2 := x.frameFormula(n, head.heap[n]); ok2 {
+				head.assume(f)
+			}
 		}
 	}
 	// 3. assume invariants at the head
